@@ -41,7 +41,20 @@ func lexAlphabet(lr *ref.LexRef, max int) [][]byte {
 	nClass := max - len(must)
 	// class representatives: 'c' for the class containing it (a readable "other"), else the lowest scalar value
 	cnt := 0
-	for i, lo := range lr.Bounds {
+	// classes that some literal or range of the grammar matches come first, the "other" classes afterwards
+	var order []int
+	for k := range lr.Bounds {
+		if lr.ClassUsed(k) {
+			order = append(order, k)
+		}
+	}
+	for k := range lr.Bounds {
+		if !lr.ClassUsed(k) {
+			order = append(order, k)
+		}
+	}
+	for _, i := range order {
+		lo := lr.Bounds[i]
 		if cnt >= nClass {
 			break
 		}
